@@ -3,8 +3,11 @@ package props
 import (
 	"fmt"
 	"regexp"
+	"runtime"
 	"sort"
 	"strconv"
+	"sync"
+	"sync/atomic"
 	"testing"
 
 	"github.com/bilibili/gengine/builder"
@@ -28,6 +31,10 @@ type C20Case struct {
 	// build; 2 = the same through a pool (construction, then incremental update). The
 	// installed rule is the one compiled last, so positions refer to the last text.
 	Recompile int `json:"recompile,omitempty"`
+	// Twin: a second faulty rule (another text, another builder, other lines) is executed by
+	// other engines at the same moments as the rule under test; each error must still cite
+	// the lines of its own text.
+	Twin *FaultProgram `json:"twin,omitempty"`
 }
 
 var lineRe = regexp.MustCompile(`(?i)\bline\s*:?\s*(-?\d+)`)
@@ -63,7 +70,7 @@ func fillerRule(k int) *dsl.Rule {
 func init() {
 	register(&Prop{
 		ID:   "C20",
-		Rule: "multi-rule, multi-line texts (1-5 rules, line breaks, comments and blank lines between any two tokens) with exactly one faulty construct from the fault catalogue (arithmetic type faults and zero divisors, comparison and logic type faults, failing calls of all three kinds, failing assignments; element-read, forRange, missing-name, non-boolean-condition faults) at a generated place (assignment right-hand side, if / else-if / for condition, for init and step, return, call argument, conc child) under 0-2 enclosing statements (if, else, else-if, for, forRange); in 30% of the cases the same rules were installed before from a text with another layout and line offset (full build or pool construction) and the text under test arrives as an incremental build / incremental pool update, optionally after a rejected incremental batch; oracle: every `line <n>` cited in the error returned for that rule is the 1-based start line of the faulty node or of one of its ancestors up to the enclosing statement; must-cite classes cite at least one. Non-trivial: the faulty construct is not on the first line of its rule and the rule is not the first, or the construct spans >= 2 lines; distinct by case hash",
+		Rule: "multi-rule, multi-line texts (1-5 rules, line breaks, comments and blank lines between any two tokens) with exactly one faulty construct from the fault catalogue (arithmetic type faults and zero divisors, comparison and logic type faults, failing calls of all three kinds, failing assignments; element-read, forRange, missing-name, non-boolean-condition faults) at a generated place (assignment right-hand side, if / else-if / for condition, for init and step, return, call argument, conc child) under 0-2 enclosing statements (if, else, else-if, for, forRange); in 30% of the cases the same rules were installed before from a text with another layout and line offset (full build or pool construction) and the text under test arrives as an incremental build / incremental pool update, optionally after a rejected incremental batch; in 15% of the other cases a second faulty rule of another text fails at the same moments on separate engines and each error must cite its own text's lines; oracle: every `line <n>` cited in the error returned for that rule is the 1-based start line of the faulty node or of one of its ancestors up to the enclosing statement; must-cite classes cite at least one. Non-trivial: the faulty construct is not on the first line of its rule and the rule is not the first, or the construct spans >= 2 lines; distinct by case hash",
 		New:  func() interface{} { return &C20Case{} },
 		Gen: func(t *rapid.T) interface{} {
 			c := &C20Case{Prog: genFaultProgram(t, nil)}
@@ -80,6 +87,9 @@ func init() {
 			c.Lead = []string{"", "", "\n", "\n\n\n", "  \n\t\n", "// header comment\n", "\r\n\r\n", " "}[uni(t, "lead", 0, 7)]
 			if pct(t, "recompile", 30) {
 				c.Recompile = uni(t, "recompile_kind", 1, 3)
+			} else if pct(t, "twin", 15) {
+				tw := genFaultProgram(t, func(s *faultSpec) bool { return s.OwnRecover })
+				c.Twin = &tw
 			}
 			return c
 		},
@@ -204,8 +214,76 @@ func init() {
 					return
 				}
 			}
+			if c.Twin != nil && rb != nil {
+				c20Twin(x, c, rb, A, text)
+			}
 		},
 	})
+}
+
+// c20Twin executes the rule under test and a second faulty rule of another text (eight blank
+// lines in front, so that its lines differ) on separate engines at the same moments; every
+// error must cite lines of its own text only.
+func c20Twin(x *Ctx, c *C20Case, rb *builder.RuleBuilder, A map[int]bool, text string) {
+	body2, node2 := c.Twin.Build()
+	rules2 := []*dsl.Rule{{Name: "faulty2", HasDesc: true, Desc: "the other faulty one", HasSal: true, Sal: 7, Body: body2}}
+	text2, pr2 := dsl.PrintRulesLead(rules2, nil, "\n\n\n\n\n\n\n\n")
+	if tooCostly(x, text2) {
+		return
+	}
+	rb2, err := buildDSL(text2, faultInject(&obs.Log{}))
+	if err != nil {
+		x.Violation("compile", "generated text was rejected: %v\n%s", err, text2)
+		return
+	}
+	A2 := allowedLines(pr2, body2, node2)
+	x.Class("another-faulty-rule-of-another-text-fails-at-the-same-moments")
+	const rounds, per = 25, 2
+	type out struct {
+		own bool
+		msg string
+	}
+	results := make(chan out, rounds*per*2)
+	for r := 0; r < rounds; r++ {
+		var ready, goFlag int32
+		var wg sync.WaitGroup
+		for k := 0; k < per*2; k++ {
+			wg.Add(1)
+			go func(k int) {
+				defer wg.Done()
+				b, name := rb, "faulty"
+				if k%2 == 1 {
+					b, name = rb2, "faulty2"
+				}
+				atomic.AddInt32(&ready, 1)
+				for atomic.LoadInt32(&goFlag) == 0 {
+				}
+				_, _, gerr, pan := runOne(b, name)
+				if pan == "" && gerr != nil {
+					results <- out{k%2 == 0, gerr.Error()}
+				}
+			}(k)
+		}
+		for atomic.LoadInt32(&ready) < per*2 {
+			runtime.Gosched()
+		}
+		atomic.StoreInt32(&goFlag, 1)
+		wg.Wait()
+	}
+	close(results)
+	for o := range results {
+		allowed, which, other := A, "the rule under test", text
+		if !o.own {
+			allowed, which, other = A2, "the second faulty rule", text2
+		}
+		for _, m := range lineRe.FindAllStringSubmatch(o.msg, -1) {
+			n, _ := strconv.Atoi(m[1])
+			if !allowed[n] {
+				x.Violation("foreign-line:concurrent-failures", "while two different faulty rules of two texts failed at the same moment on separate engines, the error of %s cites line %d, which is not a line of its faulty construct: %s\nits text:\n%s", which, n, truncate(o.msg, 240), numbered(other))
+				return
+			}
+		}
+	}
 }
 
 // citeGroup groups fault names for signatures (construct family).
